@@ -14,7 +14,8 @@ import (
 
 var pureExternalPrefixes = []string{
 	"time.", "(time.Time).", "(time.Duration).", "(*time.Timer).", "(*time.Time).",
-	"fmt.Sprintf", "fmt.Sprint", "fmt.Errorf", "errors.New", "errors.Is", "errors.Unwrap",
+	"fmt.Sprintf", "fmt.Sprint", "fmt.Errorf", "fmt.Fprintf", "fmt.Fprintln", "fmt.Fprint", // Fprint*: the io.Writer is application code, assumed not to touch library state
+ "errors.New", "errors.Is", "errors.Unwrap",
 	"strings.", "strconv.", "math.", "math/bits.", "unicode.", "unicode/utf8.",
 	"bytes.Equal", "bytes.Compare", "bytes.HasPrefix", "bytes.Contains", "bytes.IndexByte",
 	"crypto/subtle.ConstantTimeCompare", "crypto/subtle.ConstantTimeByteEq", "crypto/subtle.ConstantTimeEq", "crypto/subtle.ConstantTimeSelect", "crypto/subtle.ConstantTimeLessOrEq",
@@ -299,7 +300,8 @@ func (f *frame) intrinsic(full string, callee *ssa.Function, c *ssa.CallCommon, 
 		return []Term{r}, true
 	case strings.HasPrefix(full, "(*sync.Mutex)."), strings.HasPrefix(full, "(*sync.RWMutex)."):
 		vc.trust("sync.Mutex semantics")
-		name := "G$held$" + valueName(c.Args[0])
+		name := "G$held$" + canonMutexName(valueName(c.Args[0]))
+		vc.mutexSeen(canonMutexName(valueName(c.Args[0])))
 		switch callee.Name() {
 		case "Lock", "RLock":
 			f.st.set(name, tTrue)
@@ -402,6 +404,14 @@ func (f *frame) intrinsic(full string, callee *ssa.Function, c *ssa.CallCommon, 
 		for i := 0; i < n; i++ {
 			rs[i] = f.freshOf("ext", sig.Results().At(i).Type())
 		}
+		if n == 1 && nonNilCtors[full] {
+			vc.trust(full + " returns a non-nil value")
+			if rs[0].Sort == SIface {
+				vc.assume(mkAnd(mkNot(mkEq(ifTyp(rs[0]), i64(0))), mkNot(mkEq(ifVal(rs[0]), i64(0)))))
+			} else if rs[0].Sort == SBV64 {
+				vc.assume(mkNot(mkEq(rs[0], i64(0))))
+			}
+		}
 		return rs, true
 	}
 	return nil, false
@@ -481,4 +491,22 @@ func (f *frame) intrinsicInvoke(full string, c *ssa.CallCommon, args []Term, pos
 		return rs, true
 	}
 	return nil, false
+}
+
+
+// canonMutexName: "dtls.Conn.writeLock" and "Conn.writeLock" name the same mutex (the package qualifier of the
+// owning type is dropped, as for watch names).
+func canonMutexName(n string) string {
+	parts := strings.Split(n, ".")
+	if len(parts) >= 3 {
+		return strings.Join(parts[1:], ".")
+	}
+	return n
+}
+
+func (vc *VC) mutexSeen(n string) {
+	if vc.mutexes == nil {
+		vc.mutexes = map[string]bool{}
+	}
+	vc.mutexes[n] = true
 }
